@@ -659,4 +659,164 @@ theorem stmt_ok {R : List Resource} {V : List BVal} {env : VEnv} (cx : Ctx R V e
                       refine ⟨_, by first | (simp only [exec_append, hex1', hex3]; done) | (simp only [exec_append, hex1', hex3]; rfl), ?_⟩
                       exact ⟨rfl, rfl, rfl, rfl, rfl, rfl, rfl, hok3⟩
 
+theorem EntOK.mono {V : List BVal} {A : List Acct} {st st' : CState} (h : EntOK V st'.needed A E) (he : Ext st st') :
+    EntOK V st.needed A E := fun a x hin => h a x (he.mono a x hin)
+
+theorem stmts_ok {R : List Resource} {V : List BVal} {env : VEnv} (cx : Ctx R V env) {st st' : CState} {ss : List Stmt} {c : Code}
+    (hv : visitStmts st ss = .ok (c, st')) (hsub : Sub st' R) (hidx : VarIdxOK st) (hf : ∀ s ∈ ss, s.frag = true)
+    {A : List Acct} (hE : EntOK V st'.needed A E) (m : Machine) (F : Full) (hrel : Rel A E m F) :
+    match evalStmts env ss F with
+    | .error er => exec V c m = .error er
+    | .ok F' => ∃ m', exec V c m = .ok m' ∧ Rel A E m' F' := by
+  induction ss generalizing st c m F with
+  | nil =>
+    simp only [visitStmts, Except.ok.injEq, Prod.mk.injEq] at hv
+    obtain ⟨rfl, rfl⟩ := hv
+    exact ⟨m, rfl, hrel⟩
+  | cons s rest ih =>
+    simp only [visitStmts] at hv
+    split at hv
+    · cases hv
+    · rename_i c1 st1 h1
+      split at hv
+      · cases hv
+      · rename_i c2 st2 h2
+        simp only [Except.ok.injEq, Prod.mk.injEq] at hv
+        obtain ⟨rfl, rfl⟩ := hv
+        have he2 := visitStmts_ext h2
+        have he1 := visitStmt_ext h1
+        have hs := stmt_ok cx h1 (hsub.of_ext he2) hidx (hf s (List.mem_cons_self ..)) (hE.mono he2) m F hrel
+        simp only [evalStmts]
+        cases hev : evalStmt env s F with
+        | error er =>
+          rw [hev] at hs
+          simp only [exec_append, hs]
+        | ok F1 =>
+          rw [hev] at hs
+          obtain ⟨m1, hx1, hr1⟩ := hs
+          have := ih h2 (he1.varIdxOK hidx) (fun s' hs' => hf s' (List.mem_cons_of_mem _ hs')) m1 F1 hr1
+          simp only
+          cases hev2 : evalStmts env rest F1 with
+          | error er =>
+            rw [hev2] at this
+            simp only [exec_append, hx1, this]
+          | ok F2 =>
+            rw [hev2] at this
+            obtain ⟨m2, hx2, hr2⟩ := this
+            exact ⟨m2, by simp only [exec_append, hx1, hx2], hr2⟩
+
+theorem visitStmt_code_ne_nil {st st' : CState} {s : Stmt} {c : Code} (h : visitStmt st s = .ok (c, st')) : c ≠ [] := by
+  cases s with
+  | send amt src d =>
+    simp only [visitStmt] at h
+    split at h
+    · cases h
+    · split at h
+      · cases h
+      · rename_i c2 st2 h2
+        simp only [Except.ok.injEq, Prod.mk.injEq] at h
+        obtain ⟨rfl, _⟩ := h
+        unfold visitDestination at h2
+        split at h2
+        · cases h2
+        · simp only [Except.ok.injEq, Prod.mk.injEq] at h2
+          obtain ⟨rfl, _⟩ := h2
+          simp
+  | saveMon e acc =>
+    simp only [visitStmt] at h
+    split at h
+    · cases h
+    · split at h
+      · cases h
+      · simp only [Except.ok.injEq, Prod.mk.injEq] at h
+        obtain ⟨rfl, _⟩ := h; simp
+  | saveAll ae acc =>
+    simp only [visitStmt] at h
+    split at h
+    · cases h
+    · split at h
+      · cases h
+      · simp only [Except.ok.injEq, Prod.mk.injEq] at h
+        obtain ⟨rfl, _⟩ := h; simp
+  | setTxMeta key v =>
+    simp only [visitStmt] at h
+    split at h
+    · cases h
+    · split at h
+      · cases h
+      · simp only [Except.ok.injEq, Prod.mk.injEq] at h
+        obtain ⟨rfl, _⟩ := h; simp
+  | setAccountMeta acc key v =>
+    simp only [visitStmt] at h
+    split at h
+    · cases h
+    · split at h
+      · cases h
+      · split at h
+        · cases h
+        · simp only [Except.ok.injEq, Prod.mk.injEq] at h
+          obtain ⟨rfl, _⟩ := h; simp
+  | print e =>
+    simp only [visitStmt] at h
+    split at h
+    · cases h
+    · simp only [Except.ok.injEq, Prod.mk.injEq] at h
+      obtain ⟨rfl, _⟩ := h; simp
+  | fail =>
+    simp only [visitStmt, Except.ok.injEq, Prod.mk.injEq] at h
+    obtain ⟨rfl, _⟩ := h; simp
+
+/-- the program fragment: every statement is in the statement fragment, and there is at least one (the grammar
+requires it; `Execute` indexes `Instructions[0]`) -/
+def Script.frag (P : Script) : Prop := P.stmts ≠ [] ∧ ∀ s ∈ P.stmts, s.frag = true
+
+/-- **execution of a compiled program of the fragment is what `Spec` says**, from any machine that mirrors
+`Spec`'s state, given resolved resources: same error, or a final machine that mirrors `Spec`'s final state
+(stack empty: no "stack not empty" panic) -/
+theorem execute_correct {P : Script} {prog : Program} (hc : compile P = .ok prog) (hfr : P.frag)
+    {V : List BVal} {env : VEnv} (cx : Ctx prog.resources V env) {A : List Acct} (hE : EntOK V prog.needed A E)
+    (m : Machine) (F : Full) (hrel : Rel A E m F) :
+    match evalStmts env P.stmts F with
+    | .error er => VM.execute prog.instrs V m = .error er
+    | .ok F' => ∃ m', VM.execute prog.instrs V m = .ok m' ∧ Rel A E m' F' := by
+  unfold compile at hc
+  split at hc
+  · cases hc
+  · rename_i st0 h0
+    split at hc
+    · cases hc
+    · rename_i code st h1
+      simp only [Except.ok.injEq] at hc; subst hc
+      have hidx := visitVars_idxOK h0
+      have hne : code ≠ [] := by
+        cases hs : P.stmts with
+        | nil => exact absurd hs hfr.1
+        | cons s rest =>
+          rw [hs] at h1
+          simp only [visitStmts] at h1
+          split at h1
+          · cases h1
+          · rename_i c1 st1 hh
+            split at h1
+            · cases h1
+            · simp only [Except.ok.injEq, Prod.mk.injEq] at h1
+              obtain ⟨rfl, _⟩ := h1
+              have := visitStmt_code_ne_nil hh
+              intro hcontra
+              exact this (List.append_eq_nil_iff.mp hcontra).1
+      have hs := stmts_ok cx h1 (fun a r hr => hr) hidx hfr.2 hE m F hrel
+      cases code with
+      | nil => exact absurd rfl hne
+      | cons i is =>
+        simp only [execute]
+        cases hev : evalStmts env P.stmts F with
+        | error er =>
+          rw [hev] at hs
+          simp only [hs]
+        | ok F' =>
+          rw [hev] at hs
+          obtain ⟨m', hx, hr⟩ := hs
+          refine ⟨m', ?_, hr⟩
+          simp only [hx, hr.stack, List.isEmpty_nil, if_true]
+
 end Num
